@@ -150,9 +150,11 @@ package basestore
 
 // Load: the effective limit is the argument when positive, else MaxHistory when positive, else unlimited
 // (-1); every Join meets the dependency's size precondition for every limit (C15); the loop over the cached
-// heads never stops early; on success with cached heads the view is re-derived before the ready event.
+// heads never stops early; on success with cached heads the view is re-derived before the ready event; a fetch
+// that was interrupted by the context is never merged (C11: it would hide the missing ancestors from every
+// later load).
 //@ func (*BaseStore).Load
-//@   props C15 C05 C01 C16 C04 C03
+//@   props C15 C05 C01 C16 C04 C03 C11
 //@   safety C15
 //@   flag nilcalls
 //@   flag inline-go$2
@@ -169,6 +171,7 @@ package basestore
 //@   assert @ before call ipfslog.NewFromEntryHash#1: @C15 amount == lim
 //@   assert @ after call ipfslog.NewFromEntryHash#1: @C15 $r1 == nil ==> fetchLen(boxptr($r0, "berty.tech/go-ipfs-log.IPFSLog")) == lim
 //@   assert @ before call wg.Add#1: @C15 @C05 @C01 len(heads) == max(len(localHeads), 0) + max(len(remoteHeads), 0) && (forall j Int :: 0 <= j && j < len(localHeads) ==> heads[j] == localHeads[j]) && (forall j Int :: 0 <= j && j < len(remoteHeads) ==> heads[max(len(localHeads), 0) + j] == remoteHeads[j])
+//@   assert @ before call oplog.Join#1: @C11 fetchedAll(boxptr(l, "berty.tech/go-ipfs-log.IPFSLog"))
 //@   assert @ before call oplog.Join#1: @C04 @C03 logID(boxptr(l, "berty.tech/go-ipfs-log.IPFSLog")) == logID(oplog) && acOf(boxptr(l, "berty.tech/go-ipfs-log.IPFSLog")) == b.access && prov(boxptr(l, "berty.tech/go-ipfs-log.IPFSLog")) != 0
 //@   assert @ before call b.emitters.evtReady.Emit#1: @C01 @C05 @C16 @C15 len(heads) > 0 ==> synced(b)
 //@   ensures @C01 @C05 @C16 @C15 result == nil && len(heads) > 0 ==> synced(b)
